@@ -139,6 +139,7 @@ class Path:
     self.new_alternatives = []
     self.facts = {}
     self.fact_refs = []
+    self.args0 = None
     self.trace = []          # ghost events (calls to opaque callables, ...)
     self.ghost = {}
     self.notes = []
@@ -231,6 +232,9 @@ class Path:
     return f
 
   def oblige(self, name, goal, props=None, kind='prove', meta=None):
+    meta = dict(meta or {})
+    if self.args0 is not None:
+      meta.setdefault('args0', self.args0)
     self.obls.append(Obligation(name, list(self.hyps), goal,
                                 props or self.props, kind, meta))
 
@@ -395,6 +399,7 @@ class Executor:
       env[c.kwarg[0]] = working_copy(self.fresh(c.kwarg[1], 'kwargs'))
       args[c.kwarg[0]] = env[c.kwarg[0]]
     self.args0 = {k: snapshot(v) for k, v in args.items()}
+    self.path.args0 = self.args0
     self.closure0 = closure
     self.old = self.snapshot_state()
     fr = Frame(c.target or c.qual, fdef, env, closure=closure)
